@@ -559,4 +559,61 @@ theorem run_inv {tr : List (Op × Out)} {sp sp' : Spec} {L : List LogE} (hrun : 
       simpa [logOf, List.append_assoc] using this
     · cases hrun
 
+/-- what the monitor demands of an emit outcome, read off its definition -/
+theorem stepEmit_log {sp sp' : Spec} {id : Id} {h : HRes} {out : Out} (hst : sp.stepEmit id h out = some sp') :
+    out.log = (match sp.target id with | some r => [.call r id] | none => []) := by
+  unfold Spec.stepEmit at hst
+  split at hst
+  · rename_i r ht
+    unfold Spec.stepDeliver at hst
+    dsimp only at hst
+    split at hst
+    · rename_i hc
+      simp only [Bool.and_eq_true, beq_iff_eq] at hc
+      simp only [ht]; exact hc.2
+    · cases hst
+  · rename_i ht
+    split at hst
+    · rename_i hc
+      simp only [Bool.and_eq_true, beq_iff_eq] at hc
+      simp only [ht]; exact hc.2
+    · cases hst
+
+/-- what the monitor demands of a hash-dispatch outcome -/
+theorem stepHashId_log {sp sp' : Spec} {cid : Option Id} {h : HRes} {out : Out} (hst : sp.stepHashId cid h out = some sp') :
+    out.log = sp.hashLog cid := by
+  cases cid with
+  | none =>
+    simp only [Spec.stepHashId] at hst
+    split at hst
+    · rename_i hc
+      simp only [Bool.and_eq_true, beq_iff_eq] at hc
+      exact hc.2
+    · cases hst
+  | some id =>
+    simp only [Spec.stepHashId] at hst
+    simp only [Spec.hashLog, Spec.target]
+    split at hst
+    · rename_i r hlk
+      split at hst
+      · rename_i hc
+        simp only [Bool.and_eq_true, beq_iff_eq] at hc
+        first | (simp only [hlk]; exact hc.1) | exact hc.1
+      · cases hst
+    · rename_i hlk
+      first | simp only [hlk] | skip
+      split at hst
+      · rename_i r hfb
+        split at hst
+        · rename_i hc
+          simp only [Bool.and_eq_true, beq_iff_eq] at hc
+          first | (simp only [hfb]; exact hc.1) | exact hc.1
+        · cases hst
+      · rename_i hfb
+        split at hst
+        · rename_i hc
+          simp only [Bool.and_eq_true, beq_iff_eq] at hc
+          first | (simp only [hfb]; exact hc.2) | exact hc.2
+        · cases hst
+
 end Mpt.Dispatch
